@@ -300,6 +300,9 @@ impl Store {
             std::thread::spawn(move || {
                 #[cfg(feature = "verif")]
                 let _vguard = vr_hist.guard(vr_hist.hist());
+                // endpoints must be dropped before the guard reports the actor as finished
+                #[cfg(feature = "verif")]
+                let (tx_clone, done_tx) = (tx_clone, done_tx);
                 #[cfg(feature = "verif")]
                 vr_hist.point_as("hist.start", vr_hist.hist());
                 let mut last_id = None;
@@ -368,6 +371,8 @@ impl Store {
                     // If we have a done_rx, wait for historical processing
                     #[cfg(feature = "verif")]
                     let _vguard = vr_live.guard(vr_live.live());
+                    #[cfg(feature = "verif")]
+                    let tx = tx;
                     let (last_id, mut count) = match done_rx {
                         Some(done_rx) => match done_rx.await {
                             Ok((id, count)) => (id, count),
@@ -425,6 +430,8 @@ impl Store {
                 tokio::spawn(async move {
                     #[cfg(feature = "verif")]
                     let _vguard = vr_beat.guard(vr_beat.beat());
+                    #[cfg(feature = "verif")]
+                    let heartbeat_tx = heartbeat_tx;
                     loop {
                         tokio::time::sleep(duration).await;
                         let frame =
